@@ -57,6 +57,8 @@ def mk_state(I):
             ids = [choose(I, f'in{b}_{k}', out) for k in range(K)]
         # split of the K slots: explicit / implicit / order_only / validation
         splits = [(e, i, o) for e in range(K + 1) for i in range(K + 1 - e) for o in range(K + 1 - e - i)]
+        if __import__('os').environ.get('SPLITS') == 'ordval':
+            splits = [(e, 0, 0) for e in range(K + 1)]
         sp = splits[choose(I, f'split{b}', len(splits))]
         e, im, oo = sp
         phony = choose(I, f'phony{b}', 2) == 1
